@@ -305,7 +305,10 @@ pub fn exec_once(c: &Case) -> Outcome {
             return o;
         }
         End::Signal(sig) => {
-            o.set_fail(format!("C22/process-killed-by-signal-{sig}"), format!("{t} scheduler threads: the process died (signal {sig}); {}", r.stderr_tail.lines().rev().take(3).collect::<Vec<_>>().join(" | ")));
+            // with two or more scheduler threads a preempted coroutine can be stolen and resumed by
+            // another thread in the middle of any function (listed known finding, DESIGN 11.4)
+            let fam = if t >= 2 && *sig == 11 { "C22/2+threads" } else { "C22" };
+            o.set_fail(format!("{fam}/process-killed-by-signal-{sig}"), format!("{t} scheduler threads: the process died (signal {sig}); {}", r.stderr_tail.lines().rev().take(3).collect::<Vec<_>>().join(" | ")));
             return o;
         }
         End::Deadline { .. } => {
@@ -331,7 +334,9 @@ pub fn exec_once(c: &Case) -> Outcome {
         for x in th.as_array().cloned().unwrap_or_default() {
             let s = x[1].as_str().unwrap_or("");
             if s.starts_with("Err(") || s.starts_with("schedule error") {
-                o.set_fail("C22/coroutine-ended-with-an-error", format!("scheduler thread {ti}: a coroutine's result is {s} (its body neither panics nor faults)"));
+                let foreign_state = t >= 2 && s.contains("unexpected ") && s.contains("->Syscall((), write, Executing)");
+                let sig = if foreign_state { "C22/2+threads/coroutine-entered-its-system-call-section-in-the-state-of-another-coroutine" } else { "C22/coroutine-ended-with-an-error" };
+                o.set_fail(sig, format!("scheduler thread {ti}: a coroutine's result is {s} (its body neither panics nor faults)"));
                 return o;
             }
         }
